@@ -247,7 +247,7 @@ def index_sites(F):
                    "no unguarded indexing panic edge (MIR BoundsCheck / Index::index) in the sub-iterators (module, function, component): they must work for modules without local functions and with every function skipped")
     # C25's scope: the module and function sub-iterators (the component sub-iterator is keyed by module id
     # and needs ≥1 module, which C26's quantifier guarantees; its lookups are not judged here)
-    fns = [f for f in F.fns if f["path"].startswith(("subiterator::module_subiterator::", "subiterator::function_subiterator::")) and f.get("mir")]
+    fns = [f for f in getattr(F, "all_fns", F.fns) if f["path"].startswith(("subiterator::module_subiterator::", "subiterator::function_subiterator::")) and f.get("mir")]
     r.count("subiterator_fns", len(fns))
     n = 0
     for fn in fns:
